@@ -282,9 +282,22 @@ func (m *Model) Step(t tabular.Table, op Op) {
 		pick := cand[mod(op.Ref*5+op.Cap, len(cand))]
 		r, j := pick.r, pick.j
 		mc := &r.Cells[j]
-		if !Mutate(mc.Live, mc.It, op.Items[0]) {
+		to := op.Items[0]
+		if to.K == "keep" && mc.Live.St != nil {
+			to.S, to.G, to.E = Str(mc.Live.St.S), Str(mc.Live.St.G), Str(mc.Live.St.E)
+		}
+		if !Mutate(mc.Live, mc.It, to) {
 			m.Noops++
 			return
+		}
+		if to.M != 0 && (mc.It.K == "if" || mc.It.K == "ifp") {
+			// the descriptor follows, so that the reference renderer sees the new declared sizes
+			mc.It.H, mc.It.W = to.H, to.W
+			for k := range r.Cells { // by-value copies share the item: their descriptors follow too
+				if r.Cells[k].Live == mc.Live {
+					r.Cells[k].It.H, r.Cells[k].It.W = to.H, to.W
+				}
+			}
 		}
 		cells := r.Real.Cells()
 		(&cells[j]).Update()
